@@ -131,11 +131,15 @@ impl CodeGenerator {
         let mut rng = rand::thread_rng();
         #[cfg(feature = "verif")]
         let mut rng = crate::push::verif::rng(rng);
-        if push_state.configuration.min_random_float < push_state.configuration.max_random_float {
-            Some(rng.gen_range(
-                push_state.configuration.min_random_float
-                    ..push_state.configuration.max_random_float,
-            ))
+        let min = push_state.configuration.min_random_float;
+        let max = push_state.configuration.max_random_float;
+        if min < max && min.is_finite() && max.is_finite() {
+            if (max - min).is_finite() {
+                Some(rng.gen_range(min..max))
+            } else {
+                // max - min overflows (e.g. f32::MIN..f32::MAX): sample the halved interval
+                Some(2.0 * rng.gen_range(min / 2.0..max / 2.0))
+            }
         } else {
             None
         }
